@@ -32,4 +32,35 @@ SYMS = [
         subst=[(r"sizeof\(BitField\)", "fieldBytes")], which=1,
         doc="packed_dynamic_channel_reference<BitField,NumBits,true>::data_size, fieldBytes = sizeof(BitField)"),
 ]
+
+# ---- the read-modify-write expressions themselves, instantiated for bit fields whose arithmetic is unsigned from end
+# to end (uint32_t / uint64_t: no int promotion, so `~mask` stays inside the translator subset).  The theorems
+# C08_gen_* prove each generated body EQUAL to the hand model (setD / getD / setF / getF / chanMask) for all inputs,
+# so an edit of the template text that changes behaviour breaks a named theorem even before the correspondence runs.
+# occurrence numbers: `set_unsafe`: 0 = packed_channel_reference, 1 = packed_dynamic_channel_reference;
+# `get() const -> integer_t`: 0 = base class, 1/2 = packed_channel_reference const/mutable, 3/4 = dynamic const/mutable
+def _rmw(lean, which, bf, it, dynamic):
+    first = "_first_bit" if dynamic else "FirstBit"
+    params = [("f", bf), ("value", it), (first, "unsigned"), ("maxv", bf)] if dynamic else [("f", bf), ("value", it), (first, "int"), ("channel_mask", bf)]
+    subst = [(r"this->set_data\((.*), data_size\(\)\);", r"return \1;"), (r"this->set_data\((.*)\);", r"return \1;"),
+             (r"this->get_data\(data_size\(\)\)", "f"), (r"this->get_data\(\)", "f"),
+             (r"BitField", bf), (r"parent_t::max_val", "maxv"), (r"integer_t", it)]
+    return Sym(HC, r"void set_unsafe\(integer_t value\) const", lean, params, ret=bf, subst=subst, which=which,
+               doc="%s::set_unsafe with BitField = %s, integer_t = %s; f = the bit field read by get_data" % ("packed_dynamic_channel_reference" if dynamic else "packed_channel_reference", bf, it))
+def _get(lean, which, bf, it, dynamic):
+    first = "_first_bit" if dynamic else "FirstBit"
+    params = [("f", bf), (first, "unsigned"), ("maxv", bf)] if dynamic else [("f", bf), (first, "int"), ("channel_mask", bf)]
+    subst = [(r"this->get_data\(data_size\(\)\)", "f"), (r"this->get_data\(\)", "f"), (r"BitField", bf), (r"parent_t::max_val", "maxv"), (r"integer_t", it)]
+    return Sym(HC, r"auto get\(\) const -> integer_t", lean, params, ret=it, subst=subst, which=which,
+               doc="get() (occurrence %d) with BitField = %s, integer_t = %s" % (which, bf, it))
+def _mask(lean, which, bf):
+    return Sym(HC, r"static const BitField channel_mask = (static_cast<\s*BitField\s*>\(\s*parent_t::max_val\s*\) << FirstBit);", lean,
+               [("maxv", bf), ("FirstBit", "int")], ret=bf, subst=[(r"BitField", bf), (r"parent_t::max_val", "maxv")], expr=True, which=which,
+               doc="packed_channel_reference::channel_mask (occurrence %d) with BitField = %s" % (which, bf))
+SYMS += [
+    _rmw("dyn_set_u32", 1, "uint32_t", "uint8_t", True), _get("dyn_get_u32", 4, "uint32_t", "uint8_t", True), _get("dyn_get_const_u32", 3, "uint32_t", "uint8_t", True),
+    _rmw("dyn_set_u64", 1, "uint64_t", "uint32_t", True), _get("dyn_get_u64", 4, "uint64_t", "uint32_t", True), _get("dyn_get_const_u64", 3, "uint64_t", "uint32_t", True),
+    _mask("stat_mask_const_u32", 0, "uint32_t"), _mask("stat_mask_u32", 1, "uint32_t"),
+    _rmw("stat_set_u32", 0, "uint32_t", "uint8_t", False), _get("stat_get_u32", 2, "uint32_t", "uint8_t", False), _get("stat_get_const_u32", 1, "uint32_t", "uint8_t", False),
+]
 NAMESPACE = "GilVerif.Gen.C08"
